@@ -701,6 +701,8 @@ class Engine:
         path = ptr.path
         for i, p in enumerate(path):
             if is_sym(p):
+                if getattr(self, 'sym_ptr_hook', None) is not None and v and isinstance(v[0], Ptr) and i == len(path) - 1:
+                    return self.sym_ptr_hook(self, ptr.obj, path[:i], p, v)
                 elems = [self._load_rest(e, path[i + 1:], ew) for e in v]
                 return mux(p, elems, ew)
             v = v[p]
